@@ -124,7 +124,8 @@ fn seeds() -> Vec<Vec<u8>> {
         "\"\\u00e9\"", "\"\\ud83d\\ude00\"", "[]", "[1]", "[1,2]", "[1, 2, 3]", "[[]]", "[[1],[2]]", "[\"a\",\"b\"]", "[true,false,null]",
         "{}", "{\"a\":1}", "{\"a\":1,\"b\":2}", "{\"a\":{\"b\":[1,2]}}", "{\"a\":\"x\",\"b\":[],\"c\":{}}", " [ 1 , 2 ] ", "{ \"a\" : 1 , \"b\" : 2 }",
         "[1.5,2e3,-0.1]", "{\"k\":\"\\\"q\\\"\"}", "[\"\\\\\",1]", "{\"a\":1}\n", "[\n1,\n2\n]", "{\"a\":[1,{\"b\":null}],\"c\":\"d\"}",
-        "{\"a\":[1,2],\"b\":true}", "[[1,2],3]", "[\"a\\nb\",1]", "{\"a\\nb\":1,\"k\":2}", "{\"a\":{\"b\":1,\"x\":2},\"c\":3}",
+        "{\"a\":[1,2],\"b\":true}", "[[1,2],3]", "[\"a\\nb\",1]", "{\"a\\nb\":1,\"k\":2}", "[\"é\",1]", "{\"é\":\"日本\",\"k\":[\"😀\"]}", "[\n\"é\",\n\"日\"]",
+        "{\"a\":{\"b\":1,\"c\":true}}", "{\"a\":[10,20,30]}", "{\"a\":{\"b\":1,\"x\":2},\"c\":3}",
     ];
     base.iter().map(|s| s.as_bytes().to_vec()).collect()
 }
@@ -218,6 +219,19 @@ fn main() {
             for x in &ot { match x { Ok((_, lv)) => { if !is_text(lv.as_raw_str().as_bytes()) { report("C14", format!("object iterator over {} yielded malformed value {:?}", show(d), lv.as_raw_str())); } if oerrs > 0 { report("C12", format!("object iterator over {} yielded an item after an error", show(d))); } } Err(_) => oerrs += 1 } }
             if p < d.len() && d[p] == b'{' { if value(d, 0, 0).is_some() { if oerrs != 0 { report("C12", format!("object iterator over well-formed {} reported an error", show(d))); } } else if oerrs == 0 { report("C12", format!("object iterator over malformed object {} ended without an error", show(d))); } }
         }
+        // C12: on well-formed input the unchecked iterators agree with the checked ones (items' exact raw text)
+        if want("C12") && ok {
+            let ck: Vec<String> = it.iter().filter_map(|x| x.as_ref().ok().map(|l| l.as_raw_str().to_string())).collect();
+            if it.iter().all(|x| x.is_ok()) && !it.is_empty() {
+                let un: Vec<String> = unsafe { sonic_rs::to_array_iter_unchecked(txt) }.filter_map(|x| x.ok().map(|l| l.as_raw_str().to_string())).collect();
+                if un != ck { report("C12", format!("to_array_iter_unchecked({}) yields {:?}, the checked iterator yields {:?}", show(d), un, ck)); }
+            }
+            let ok_ot: Vec<(String, String)> = ot.iter().filter_map(|x| x.as_ref().ok().map(|(k, l)| (k.to_string(), l.as_raw_str().to_string()))).collect();
+            if ot.iter().all(|x| x.is_ok()) && !ot.is_empty() {
+                let un: Vec<(String, String)> = unsafe { sonic_rs::to_object_iter_unchecked(txt) }.filter_map(|x| x.ok().map(|(k, l)| (k.to_string(), l.as_raw_str().to_string()))).collect();
+                if un != ok_ot { report("C12", format!("to_object_iter_unchecked({}) yields {:?}, the checked iterator yields {:?}", show(d), un, ok_ot)); }
+            }
+        }
         // C14 / C10: checked get hands out only well-formed fragments after a well-formed prefix
         if want("C14") || want("C10") {
             for path in [vec![sonic_rs::PointerNode::Index(1)], vec![sonic_rs::PointerNode::Key("k".into())], vec![sonic_rs::PointerNode::Key("b".into())], vec![sonic_rs::PointerNode::Index(0)]] {
@@ -240,6 +254,10 @@ fn main() {
         { let mut t = PointerTree::new(); t.add_path(&pointer![0, 0]); t.add_path(&pointer![1]); trees.push(t); }
         { let mut t = PointerTree::new(); t.add_path(&pointer!["a", "b"]); t.add_path(&pointer!["c"]); trees.push(t); }
         { let mut t = PointerTree::new(); t.add_path(&pointer![0]); t.add_path(&pointer![1]); trees.push(t); }
+        // a path that is a proper prefix of another one
+        { let mut t = PointerTree::new(); t.add_path(&pointer!["a"]); t.add_path(&pointer!["a", "b"]); trees.push(t); }
+        { let mut t = PointerTree::new(); t.add_path(&pointer!["a"]); t.add_path(&pointer!["a", 1]); trees.push(t); }
+        { let mut t = PointerTree::new(); t.add_path(&pointer![0]); t.add_path(&pointer![0, 0]); trees.push(t); }
         for d in &docs {
             let Ok(txt) = std::str::from_utf8(d) else { continue };
             for (k, t) in trees.iter().enumerate() {
